@@ -252,6 +252,10 @@ class RepartitionDivisions(Repartition):
                     "than old division"
                 )
                 raise ValueError(msg)
+            # Extending the range is the same as widening the outermost old
+            # partitions (they hold no rows outside the old range anyway). The
+            # plan below relies on both ranges starting and ending together.
+            a = (b[0],) + tuple(a[1:-1]) + (b[-1],)
         else:
             if a[0] != b[0]:
                 msg = "left side of old and new divisions are different"
